@@ -72,7 +72,7 @@ def fpDice (f g : Fp) : Rat :=
 
 /-- `fprint_metrics.soergel`; `none` is NaN (all-zero counts), an empty pair scores 0 -/
 def fpSoergel (f g : Fp) : Rat :=
-  if f.kind = .bit ∨ g.kind = .bit then fpTanimoto f g
+  if f.kind = .bit ∧ g.kind = .bit then fpTanimoto f g
   else
     let u := uniq (f.idx ++ g.idx)
     let sad := sumQ (u.map (fun i => absQ (f.count i - g.count i)))
